@@ -212,6 +212,16 @@ func c18Bases() []c18Base {
 			uses:  map[string][]string{"zlay.tw": {"a"}, "zc.tw": {"a", "zlay"}},
 		},
 		{
+			// a layout without a reserve (so it is a page as well) that sorts BEFORE the page that uses it
+			files: map[string]string{
+				"alay.tw": "<y>plain</y>",
+				"b.tw":    "@use(\"alay\")",
+				"c/d.tw":  "@use(\"alay\")text that is dropped",
+			},
+			pages: map[string]string{"alay": "<y>plain</y>", "b": "<y>plain</y>", "c/d": "<y>plain</y>"},
+			uses:  map[string][]string{"alay.tw": {"b", "c/d"}},
+		},
+		{
 			// per cent signs in file, layout and component names (they must come through error messages unharmed)
 			files: map[string]string{
 				"p%d.tw":      "@use(\"lay%s\")@insert(\"c\")X@component(\"c%v/card\")@end",
